@@ -253,14 +253,14 @@ def worker(task, col):
     M.Tap(an.ConnectionChoiceNode, 'iter_conn_edges', counter=col.count)
     M.Tap(an.ConnectionChoiceNode, 'validate_conn_edges', counter=col.count)
     if task.get('replay'):
-        check_case(task['replay']['violation']['spec'], col, 'replay')
+        common.guard(col, check_case, task['replay']['violation']['spec'], col, 'replay')
         return
     if task['shard'] == 0:
         for c in common.corpus('C11'):
-            check_case(c['spec'], col, 'corpus')
+            common.guard(col, check_case, c['spec'], col, 'corpus')
     for i in range(task['lo'], task['hi']):
         name, sp = case_spec(task['seed'], i)
-        check_case(sp, col, name)
+        common.guard(col, check_case, sp, col, name)
 
 
 def main(run):
